@@ -50,6 +50,13 @@ THEOREMS = [
     "SleapVerif.C15.iou_range",
     "SleapVerif.C15.iou_self",
     "SleapVerif.C15.iou_symm",
+    "SleapVerif.C15.cosine_range",
+    "SleapVerif.C15.cosine_symm",
+    "SleapVerif.C15.cosine_self",
+    "SleapVerif.C15.euclid_nonneg",
+    "SleapVerif.C15.euclid_eq_zero_iff",
+    "SleapVerif.C15.euclid_symm",
+    "SleapVerif.C15.euclid_triangle",
 ]
 
 EPS = Fraction(2) ** -52  # np.spacing(1)
@@ -583,8 +590,24 @@ def main(chk: Check):
             chk.case(None, tags=[op])
             if not (impl[0] == "ok" and close(float(impl[1]), model)):
                 chk.disagree(f"{fn.__name__} vs model@Float", case, str(impl), str(model))
-            elif op == "cosine" and not (-1 - 1e-12 <= float(impl[1]) <= 1 + 1e-12):
-                chk.fail("cosine similarity outside [-1,1]", case, observed=float(impl[1]))
+            elif op == "cosine":
+                v = float(impl[1]); w = float(tu.compute_cosine_sim(np.array(b), np.array(a)))
+                if not (-1 - 1e-12 <= v <= 1 + 1e-12) or abs(v - w) > 1e-12:
+                    chk.fail("cosine similarity outside [-1,1] or asymmetric", case, observed=(v, w))
+            else:
+                A, B = np.array(a), np.array(b)
+                Cv = np.array([rng.randrange(-32, 33) / 4.0 for _ in a])
+                d = lambda x, y: -float(tu.compute_euclidean_distance(x, y))
+                bad = []
+                if d(A, B) < 0 or d(A, B) != d(B, A):
+                    bad.append("negative or asymmetric")
+                if (d(A, B) == 0) != (a == b):
+                    bad.append("zero iff equal")
+                if d(A, Cv) > d(A, B) + d(B, Cv) + 1e-9:
+                    bad.append("triangle inequality")
+                for x in bad:
+                    chk.fail("euclidean distance contract violated: " + x, {**case, "c": Cv.tolist()},
+                             observed=(d(A, B), d(B, A), d(A, Cv), d(B, Cv)))
 
 
 if __name__ == "__main__":
